@@ -324,12 +324,21 @@ impl RunCfg {
             w[0] = 50;
         }
         let max_steps = if thorough { 256 } else { 64 };
-        let steps = match rng.below(8) {
+        let mut steps = match rng.below(8) {
             0 => 2 + rng.below(5),
             1 | 2 => 4 + rng.below(12),
             3 | 4 | 5 => 8 + rng.below(40),
             _ => 16 + rng.below(max_steps),
         };
+        // rare long dense runs that cross many capacity doublings with thousands of live indices
+        let long_run = thorough && matches!(prop, 1 | 2 | 12 | 18) && rng.chance(1, 96);
+        if long_run {
+            steps = 1000 + rng.below(3000);
+            for x in w.iter_mut().skip(1) {
+                *x = (*x).min(1);
+            }
+            w[0] = 400;
+        }
         let mut knobs = Knobs::draw(rng, if thorough { 12 } else { 8 });
         let (relations, first_spawn) = match prop {
             8 => (REL_CLEAR, 0),
@@ -367,6 +376,74 @@ impl RunCfg {
             noncanonical_forms: prop != 17,
         }
     }
+}
+
+/// Number of letters of the stratified alphabet (C02's "bounded-exhaustively for short histories").
+pub const STRAT_LETTERS: u64 = 7;
+
+/// The fixed (non-swarm) configuration used for the stratified histories.
+pub fn strat_cfg(prop: u8, index: u64) -> RunCfg {
+    let mut w = [0u32; NKINDS];
+    w[0] = 1;
+    RunCfg {
+        prop,
+        steps: 0,
+        pop_cap: 2,
+        weights: w,
+        knobs: Knobs { small_domain: 2, ..Knobs::default() },
+        move_on_realloc: index % 2 == 1,
+        poison_on_free: index % 2 == 1,
+        oob: false,
+        borrowed: false,
+        laws: false,
+        full: true,
+        repeat: 0,
+        lockstep: 0,
+        relations: 0,
+        first_spawn: 0,
+        noncanonical_forms: true,
+    }
+}
+
+pub fn strat_total(max_len: u32) -> u64 {
+    (1..=max_len).map(|k| STRAT_LETTERS.pow(k)).sum()
+}
+
+/// Decode run `index` into a history over a 7-letter alphabet: push of one of three small values
+/// (the third in a non-canonical form), reserve_items, reserve_regions from itself is impossible
+/// so: FlatStack::reserve / reserve_items with other contents, a deduplicating repeat, clear.
+pub fn strat_ops<V: Value>(index: u64, caps: &Caps, fixed_seed: u64) -> Vec<Op<V>> {
+    // three small values of this composition, fixed for the whole sweep
+    let mut rng = Rng::new(fixed_seed);
+    let mut knobs = Knobs { small_domain: 2, max_len: 2, empty_bias: 4, ..Knobs::default() };
+    let vals: Vec<V> = (0..3).map(|_| V::gen(&mut Gen::new(&mut rng, &mut knobs))).collect();
+    let mut off = index;
+    let mut len = 1u32;
+    while off >= STRAT_LETTERS.pow(len) {
+        off -= STRAT_LETTERS.pow(len);
+        len += 1;
+    }
+    let mut ops = Vec::with_capacity(len as usize);
+    for _ in 0..len {
+        let l = off % STRAT_LETTERS;
+        off /= STRAT_LETTERS;
+        ops.push(match l {
+            0 => Op::Push { t: 0, v: vals[0].clone(), form: 0 },
+            1 => Op::Push { t: 0, v: vals[1].clone(), form: 0 },
+            2 => Op::Push { t: 0, v: vals[2].clone(), form: if caps.nforms > 1 { 1 + (index as usize % (caps.nforms - 1)) } else { 0 } },
+            3 => Op::ReserveItems { t: 0, vs: vec![vals[1].clone(), vals[2].clone()], form: 0 },
+            4 => {
+                if caps.is_stack {
+                    Op::StackReserve { t: 0, n: 3 }
+                } else {
+                    Op::ReserveItems { t: 0, vs: vec![vals[0].clone(); 5], form: caps.nrforms.saturating_sub(1) }
+                }
+            }
+            5 => Op::Push { t: 0, v: vals[1].clone(), form: caps.nforms.saturating_sub(1) },
+            _ => Op::Clear { t: 0, twin: false },
+        });
+    }
+    ops
 }
 
 /// Generate a whole schedule from the PRNG.
